@@ -328,6 +328,10 @@ func (w *hsWorld) advPayload(initiator bool, pk string, ii, ri uint32) []byte {
 	switch pk {
 	case "full":
 		return MarshalPayload(nil, Payload{Cert: id.raw[v], CertVersion: uint32(v), InitiatorIndex: ii, ResponderIndex: ri, Time: now})
+	case "keep": // the complete certificate as issued: its own public key embedded (v1 Details.PublicKey, v2 element [2])
+		return MarshalPayload(nil, Payload{Cert: w.c.certForm(v, id.raw[v], id.cert[v].PublicKey()), CertVersion: uint32(v), InitiatorIndex: ii, ResponderIndex: ri, Time: now})
+	case "swap": // the same details and signature around the adversary's static key, as a complete certificate
+		return MarshalPayload(nil, Payload{Cert: w.c.certForm(v, id.raw[v], w.c.ids[w.adv].pub), CertVersion: uint32(v), InitiatorIndex: ii, ResponderIndex: ri, Time: now})
 	case "empty":
 		return nil
 	case "junk":
@@ -428,6 +432,48 @@ func (c *hsCombo) badPoint(kind string) []byte {
 	return b
 }
 
+// certForm re-encodes handshake certificate bytes in another FORM (the dimension `ck` of the specification), for both
+// certificate versions: key == nil -> stripped (what MarshalForHandshakes produces), otherwise a complete certificate
+// with that public key embedded. raw may be in either form. The signature bytes are carried over untouched.
+func (c *hsCombo) certForm(v cert.Version, raw, key []byte) []byte {
+	cc, err := cert.Recombine(v, raw, []byte{}, c.curve) // empty, non-nil key: the bytes are decoded as they are (complete form)
+	if err != nil || len(cc.PublicKey()) == 0 {
+		var k []byte
+		if key != nil {
+			k = key
+		} else {
+			k, _ = c.keypair()
+		}
+		if cc, err = cert.Recombine(v, raw, k, c.curve); err != nil { // stripped form: any key makes it decodable
+			panic("certForm: " + err.Error())
+		}
+	} else if key != nil && !bytes.Equal(cc.PublicKey(), key) {
+		stripped, err := cc.MarshalForHandshakes()
+		if err != nil {
+			panic(err)
+		}
+		if cc, err = cert.Recombine(v, stripped, key, c.curve); err != nil {
+			panic("certForm: " + err.Error())
+		}
+	}
+	var out []byte
+	if key == nil {
+		out, err = cc.MarshalForHandshakes()
+	} else {
+		out, err = cc.Marshal()
+	}
+	if err != nil {
+		panic(err)
+	}
+	return out
+}
+
+// certComplete: do these certificate bytes carry a public key of their own
+func (c *hsCombo) certComplete(v cert.Version, raw []byte) bool {
+	cc, err := cert.Recombine(v, raw, []byte{}, c.curve)
+	return err == nil && len(cc.PublicKey()) > 0
+}
+
 // token boundaries of a handshake datagram (Appendix C of the design)
 func (c *hsCombo) bounds(st int, n int) (e0, s0, p0 int) {
 	e0 = header.Len
@@ -514,6 +560,22 @@ func (w *hsWorld) mutate(src *hsSlot, op, arg string) []byte {
 			panic(err)
 		}
 		p.InitiatorIndex = w.index(9)
+		pkt = MarshalPayload(pkt[:p0], p)
+	case "cert_keep", "cert_swap", "cert_strip": // the certificate bytes of a clear payload in another form
+		p, err := UnmarshalPayload(pkt[p0:])
+		if err != nil || len(p.Cert) == 0 {
+			panic("certificate surgery on a payload without certificate")
+		}
+		var key []byte
+		switch {
+		case op == "cert_keep": // the key of this message's own static token
+			key = append([]byte(nil), pkt[s0:p0]...)
+		case op == "cert_swap" && arg == "adv":
+			key = c.ids[w.adv].pub
+		case op == "cert_swap":
+			key, _ = c.keypair()
+		}
+		p.Cert = c.certForm(cert.Version(p.CertVersion), p.Cert, key)
 		pkt = MarshalPayload(pkt[:p0], p)
 	case "sub_e":
 		pub, _ := c.keypair()
@@ -687,13 +749,24 @@ func (w *hsWorld) class(src, op, arg string) string {
 	s := w.slot(src)
 	origin := ""
 	if !s.honest {
-		origin = "adv-" + w.adv + "-" + s.pk
+		origin = "adv-" + w.adv + "-" + hsPkName(s.pk)
 		if s.sk == "bad" {
 			origin += "-invalid-static"
 		}
 		origin += ":"
 	}
 	return fmt.Sprintf("stage%d-%s%s", s.st, origin, hsOpName(op, arg))
+}
+
+// hsPkName: payload kinds in mismatch keys
+func hsPkName(pk string) string {
+	switch pk {
+	case "keep":
+		return "complete-cert"
+	case "swap":
+		return "complete-cert-own-key"
+	}
+	return pk
 }
 
 func hsOpName(op, arg string) string {
@@ -726,6 +799,12 @@ func hsOpName(op, arg string) string {
 		return "payload-bit-flip"
 	case "idx":
 		return "index-rewritten"
+	case "cert_keep":
+		return "certificate-key-embedded"
+	case "cert_swap":
+		return "certificate-key-replaced-" + arg
+	case "cert_strip":
+		return "certificate-key-stripped"
 	case "hdrflip":
 		return "header-bit-flip"
 	case "short":
@@ -982,6 +1061,17 @@ func hsCover(t testing.TB, res *vResult, g *hsGraph, c *hsCombo, prop string, li
 				budget--
 				st.Steps++
 				res.Hit(e.Act)
+				switch e.Act { // vacuity accounting per payload kind / delivery operation
+				case "AdvInit":
+					res.Hit("pk:" + e.Args[0])
+				case "AdvResp":
+					res.Hit("pk:" + e.Args[1])
+				case "Deliver":
+					res.Hit("op:" + e.Args[2])
+					if src := w.slot(e.Args[1]); !src.honest && e.Args[2] == "id" && !w.slot(e.Args[0]).m.Failed() && !w.slot(e.Args[0]).completed {
+						res.Hit(fmt.Sprintf("form:%s->stage%d-reader", src.pk, src.st))
+					}
+				}
 				o, judged := w.apply(e)
 				res.Case(fmt.Sprintf("%s/%s/%d", g.Name, c.name, gid))
 				if !judged {
@@ -1373,13 +1463,13 @@ func hsScenarios(t testing.TB, res *vResult, g *hsGraph, c *hsCombo, limit int) 
 // ------------------------------------------------------------------------------------------------ random schedules (T)
 
 var hsModelOps = []string{"id", "id", "id", "hdrflip", "short", "subtype", "hdr", "in_e", "after_e", "in_s", "after_s", "in_p",
-	"flip_s", "flip_p", "idx", "sub_e", "bad_e", "splice_e", "splice_p", "rawtrunc", "rawflip"}
+	"flip_s", "flip_p", "idx", "sub_e", "bad_e", "splice_e", "splice_p", "rawtrunc", "rawflip", "cert_keep", "cert_swap", "cert_strip"}
 
 // hsRandom drives seeded adversarial schedules with more sessions and longer histories than the model-checking bounds
 // and judges them with the reference predicates of prop.
 func hsRandom(t testing.TB, res *vResult, c *hsCombo, prop string, n, length int) {
 	advs := []string{"M", "U", "X", "L", "K"}
-	pks := []string{"full", "full", "full", "empty", "junk", "nocert", "noidx", "zeroidx"}
+	pks := []string{"full", "full", "full", "empty", "junk", "nocert", "noidx", "zeroidx", "keep", "keep", "swap"}
 	for trial := 0; trial < n; trial++ {
 		rnd := mrand.New(mrand.NewSource(vSeed()*3000017 + int64(trial)*131 + int64(len(c.name))*13 + int64(c.dh)))
 		w := hsNewWorld(c, 1+rnd.Intn(5), advs[rnd.Intn(len(advs))], rnd)
@@ -1517,6 +1607,17 @@ func (w *hsWorld) randomPacket(s *hsSlot, op string, arg *string, msgs []string)
 		if s.st != 1 || !full(op) {
 			return nil, "", false
 		}
+	case "cert_keep", "cert_swap", "cert_strip":
+		if s.st != 1 || !full(op) {
+			return nil, "", false
+		}
+		p, _ := UnmarshalPayload(s.msg[p0:])
+		if c.certComplete(cert.Version(p.CertVersion), p.Cert) != (op == "cert_strip") {
+			return nil, "", false
+		}
+		if op == "cert_swap" {
+			*arg = []string{"unk", "adv"}[w.rnd.Intn(2)]
+		}
 	case "flip_p":
 		if !full(op) {
 			return nil, "", false
@@ -1560,7 +1661,7 @@ func (w *hsWorld) origin(s *hsSlot) string {
 	if s.honest {
 		return ""
 	}
-	o := "adv-" + w.adv + "-" + s.pk
+	o := "adv-" + w.adv + "-" + hsPkName(s.pk)
 	if s.sk == "bad" {
 		o += "-invalid-static"
 	}
